@@ -8,7 +8,7 @@ from hypothesis import strategies as st
 
 from pyref import ec, pedersen, borromean, rangeproof as R
 from vf import gens
-from vf.core import Test
+from vf.core import Test, Inconclusive
 from vf.lib import buf
 from vf.props import rp_common as RC
 
@@ -701,6 +701,61 @@ def run_info(env, case):
     return True, cl
 
 
+
+# ---------------------------------------------------------------- declared lengths beyond 2^32
+# A length parameter narrowed to 32 bits somewhere inside the library turns "proof followed by exactly k*2^32 bytes" into the
+# proof itself.  The backing store is an anonymous, lazily committed mapping: neither side ever touches the trailing bytes
+# (the specified verifier rejects on the exact-length rule after parsing the proof), so this costs address space only.
+@st.composite
+def huge_case(draw):
+    return {"value": draw(st.integers(0, 255)), "exp": draw(st.sampled_from([-1, 0, 0])), "min_bits": draw(st.sampled_from([0, 1, 3, 4])),
+            "blind": draw(gens.seckey_valid), "nonce": draw(gens.hexbytes(32)), "k": draw(st.sampled_from([1, 1, 2, 3])),
+            "delta": draw(st.sampled_from([0, 0, 0, 1, -1])), "api": draw(st.sampled_from(["verify", "verify", "rewind", "info"]))}
+
+
+def run_huge(env, case):
+    import mmap
+    import ctypes
+    lib = env.lib
+    g = RC.gen_h(env)
+    ok, c = RC.commit(env, case["blind"], case["value"], g)
+    env.require(ok == 1, "commit failed")
+    r, proof, _ = RC.rp_sign(env, c, ec.i2b(case["blind"]), bytes.fromhex(case["nonce"]), case["exp"], case["min_bits"], case["value"], 0, g)
+    env.require(r == 1 and proof is not None, "rangeproof_sign failed for plain parameters")
+    total = len(proof) + case["k"] * (1 << 32) + case["delta"]
+    try:
+        mm = mmap.mmap(-1, total + 4096, flags=mmap.MAP_PRIVATE | mmap.MAP_ANONYMOUS | getattr(mmap, "MAP_NORESERVE", 0))
+    except (OSError, ValueError, OverflowError) as e:
+        raise Inconclusive("cannot map %d bytes of address space: %s" % (total, e))
+    try:
+        mm[:len(proof)] = proof
+        base = ctypes.addressof(ctypes.c_char.from_buffer(mm))
+        pb = ctypes.c_void_p(base)
+        mn, mx = c_uint64(1), c_uint64(2)
+        classes = ["api:" + case["api"], "k=%d" % case["k"], "delta=%d" % case["delta"]]
+        if case["api"] == "verify":
+            got = lib.dll.secp256k1_rangeproof_verify(lib.ctx, byref(mn), byref(mx), c, pb, c_size_t(total), None, c_size_t(0), g)
+            env.require(got == 0, "rangeproof_verify accepted a proof followed by %d*2^32%+d trailing bytes (declared length %d)" % (case["k"], case["delta"], total))
+        elif case["api"] == "rewind":
+            blind = buf(32); val = c_uint64(0); msg = buf(4096); ol = c_size_t(4096)
+            got = lib.dll.secp256k1_rangeproof_rewind(lib.ctx, blind, byref(val), msg, byref(ol), bytes.fromhex(case["nonce"]), byref(mn), byref(mx), c, pb,
+                                                      c_size_t(total), None, c_size_t(0), g)
+            env.require(got == 0, "rangeproof_rewind accepted a proof followed by %d*2^32%+d trailing bytes" % (case["k"], case["delta"]))
+        else:
+            # info only parses the header: it must report the same header as for the exact-length proof
+            e1, m1 = c_int(0), c_int(0)
+            got = lib.dll.secp256k1_rangeproof_info(lib.ctx, byref(e1), byref(m1), byref(mn), byref(mx), pb, c_size_t(total))
+            ref = RC.rp_info(env, proof)
+            env.require((got, e1.value, m1.value, mn.value, mx.value) == ref if got == 1 else ref[0] == got,
+                        "rangeproof_info differs between declared length %d and the exact length" % total)
+        del pb
+    finally:
+        try:
+            mm.close()
+        except BufferError:
+            pass
+    return True, classes
+
 def _only(adv):
     return lambda: ref_case(adv=adv)
 
@@ -714,5 +769,7 @@ TESTS = [
                      "digit_x_plus_p:accepted", "digit_x_plus_p_twin", "scalar_zero:rejected", "last_inf:rejected", "wrong_witness:rejected", "ref_sender_rewound", "mant=33-64"]),
     Test("rewind_digit_outside_ring", _only("f3"), run_ref, quick=60, thorough=2000, max_workers=8, must_cover=["f3:accepted"]),
     Test("random_strings", rand_case, run_rand, quick=400, thorough=20000, max_workers=4, must_cover=["format_ok", "format_reject"]),
+    Test("huge_plen", huge_case, run_huge, quick=60, thorough=600, max_workers=2, cfgs={"quick": ["prod"], "thorough": ["prod"]},
+         must_cover=["api:verify", "api:rewind", "delta=0"]),
     Test("info_strings", info_case, run_info, quick=3000, thorough=100000, max_workers=4, must_cover=["info_ok", "info_reject", "reserved_bit", "exp>18", "mantissa>64", "range_overflow"]),
 ]
